@@ -8,6 +8,7 @@ from . import c10
 
 WRITE_PRIMS = {"display", "write", "write-char", "write-string", "write-line", "put-string", "put-char", "put-bytevector", "put-u8", "newline", "simple-format", "format", "force-output", "flush-output-port"}
 LOCKS = {"with-mutex", "monitor", "lock-mutex"}
+MUTEX_SITES_FLOOR = 3  # framed default frame mutex, plain stdout record, plain file record (path copies of one site count again)
 
 
 def analyse_binding(text):
@@ -131,14 +132,20 @@ def run(c, facts, tier):
                         c.ob("C16.delegation", "%s::%s" % (plain, meth), "port record pairs a fresh port with its own fresh mutex", ok, "record %s" % kv[-1], nontrivial=False)
     # one mutex per destination: a (port, mutex) record is created only when the cache for that destination is known to be
     # empty on that path, it is stored in the cache on the same path, and no path of the manager is left unmodelled
+    nmutex = [sum(1 for _s, t_, dv_ in templates if dv_ is not None and "(make-mutex)" in t_)]
     for M in codegen.MANAGERS:
         for meth in ("get_printer", "get_file_printer"):
             site = "%s::%s" % (M, meth)
             for p in mgr.paths(facts, M, meth):
-                unk = p.row.get("unknown") or []
+                unk = list(p.row.get("unknown") or [])
+                # a closure handed to a combinator (`unwrap_or_else(|| self.open_port(..))`) is an opaque term for the path
+                # interpreter: whatever its body allocates, stores or fails to store is invisible here — fail closed (seed C16/AE)
+                if "<closure>" in (p.cond or "") + " ".join(p.row.get("effects") or []):
+                    unk.append("a closure whose body is not followed decides the port record of this path")
                 if unk:
                     c.ob("C16.delegation", site, "path fully modelled [%s]" % (p.cond or "")[:50], False, "the path contains constructs the interpreter cannot follow (%s): which mutex protects the port on later calls is not decided" % unk[:2], witness="-print -print -print (three stdout printers)")
                 mut = [t for fld, t, toks, forms in p.pushes if "(make-mutex)" in t]
+                nmutex[0] += len(mut)
                 for t in mut:
                     mm = mgr.NAME.fullmatch(sexp.parse(emit.scheme_tokens(t))[0][0]) if sexp.parse(emit.scheme_tokens(t)) else None
                     mi = mm.group(2).strip("{}") if mm else None
@@ -192,5 +199,7 @@ def run(c, facts, tier):
         else:
             c.ob("C16.no-bypass", "<Action as TargetScheme>::compile", a, False, "%s writes to the shared stdout directly (`%s`), bypassing the frame procedure's mutex when framed printers are in use" % (a, " ".join(row["tokens"])), witness="-print-file-fid -print0 with 2 threads")
     c.floor("write primitives in templates", nwrites, 2)
+    print_n = nmutex[0]
+    c.floor("mutex allocation sites seen (manager defaults + request paths)", print_n, MUTEX_SITES_FLOOR)
     bad = analyse_binding("(%lf3:frame:2 (lambda (s d) (display s %lf3:port:0) (with-mutex %lf3:mutex:1 (display d %lf3:port:0))))")
     c.control("C16.locked-writes", any(not w_["locks"] for w_ in bad["writes"]), "fixture with a display outside with-mutex is reported")
